@@ -76,6 +76,7 @@ var mapRange = map[string]map[string]bool{
 	"internal/decoder/jitdec/decoder.go": {"vtm": true, "compiler.rec": true, "pendings": true},
 	"internal/encoder/pools_amd64.go":    {"vtm": true, "compiler.rec": true, "pendings": true},
 	"internal/encoder/compiler.go":       {"vtm": true, "sub": true},
+	"internal/decoder/optdec/decoder.go": {"vtm": true, "sub": true},
 }
 
 // entryOnly: functions that get a single yield at entry (file:func).
